@@ -23,7 +23,7 @@ import traceback
 
 import z3
 
-__all__ = ['SymBool', 'SymInt', 'Ctx', 'ConcreteCtx', 'Explorer', 'PathAbort', 'Violation',
+__all__ = ['fp_value_to_float', 'fp_value_to_hex', 'SymBool', 'SymInt', 'Ctx', 'ConcreteCtx', 'Explorer', 'PathAbort', 'Violation',
            'Inconclusive', 'HarnessError', 'PathResult', 'unwrap']
 
 
@@ -44,6 +44,31 @@ class Violation(BaseException):
 
 class HarnessError(Exception):
     pass
+
+
+def fp_value_to_float(val):
+    import struct
+    val = z3.simplify(val)
+    if val.isNaN():
+        return float('nan')
+    if val.isInf():
+        return float('-inf') if val.isNegative() else float('inf')
+    sign = 1 if val.isNegative() else 0
+    if val.isZero():
+        return -0.0 if sign else 0.0
+    e = val.exponent_as_long(True)
+    m = val.significand_as_long()
+    bits = (sign << 63) | (e << 52) | m
+    return struct.unpack('>d', struct.pack('>Q', bits))[0]
+
+
+def fp_value_to_hex(val):
+    f = fp_value_to_float(val)
+    if f != f:
+        return 'nan'
+    if f in (float('inf'), float('-inf')):
+        return 'inf' if f > 0 else '-inf'
+    return f.hex()
 
 
 def unwrap(x):
@@ -230,6 +255,15 @@ class ConcreteCtx(_CtxBase):
             raise HarnessError('replayed value out of range %s=%r' % (name, v))
         return v
 
+    def bv(self, name, bits=32):
+        return int(self._get(name, 0))
+
+    def fp(self, name):
+        v = self._get(name, 0.0)
+        if isinstance(v, str):
+            v = float.fromhex(v) if v not in ('nan', 'inf', '-inf') else float(v)
+        return float(v)
+
     def concretize(self, x):
         return x
 
@@ -283,6 +317,12 @@ class Ctx(_CtxBase):
         self.ex.add(z3.And(v >= lo, v <= hi))
         return SymInt(self, v)
 
+    def fp(self, name):
+        return self._var(name, lambda n: z3.FP(n, z3.Float64()))
+
+    def bv(self, name, bits=32):
+        return self._var(name, lambda n: z3.BitVec(n, bits))
+
     # -- solver interaction
     def branch(self, term):
         if isinstance(term, bool):
@@ -316,21 +356,22 @@ class Ctx(_CtxBase):
                 raise Violation(msg, detail)
             self.discharged += 1
             return
-        r = self.ex.check_sat(z3.Not(c))
-        if r == 'sat':
-            self.ex.add(z3.Not(c))
+        # an assertion is a branch: the violating side (if feasible) ends the path with a Violation,
+        # the exploration continues on the side where the assertion holds
+        ok = self.ex.decide_bool(c, fresh=False, expect=True)
+        if not ok:
             raise Violation(msg, detail)
-        if r != 'unsat':
-            raise Inconclusive('solver %s on assertion %s' % (r, msg))
         self.discharged += 1
-        self.ex.add(c)
 
 
 class Explorer(object):
     """DFS over branch decisions of `body(ctx)`; see module docstring."""
 
     def __init__(self, body, prefix=(), seed=0, query_timeout_ms=20000, validate=True,
-                 concretize_limit=64):
+                 concretize_limit=64, backend='z3'):
+        self.backend = backend    # 'z3' | 'cvc5' (queries dumped as SMT-LIB2 and decided by the cvc5 wheel)
+        self.query_timeout_ms = query_timeout_ms
+        self.cvc5_values = None
         self.body = body
         self.prefix = list(prefix)
         self.validate = validate
@@ -350,12 +391,20 @@ class Explorer(object):
     def add(self, c):
         self.solver.add(c)
 
-    def check_sat(self, *assumptions):
+    def check_sat(self, *assumptions, **kw):
         t = time.time()
-        r = self.solver.check(*assumptions)
+        if self.backend == 'cvc5':
+            from . import cvc5_backend
+            s2 = z3.Solver()
+            s2.add(self.solver.assertions())
+            s2.add(*assumptions)
+            r, vals = cvc5_backend.solve(s2.to_smt2(), self.query_timeout_ms, kw.get('value_names', ()))
+            self.cvc5_values = vals
+        else:
+            r = str(self.solver.check(*assumptions))
         self.solver_s += time.time() - t
         self.queries += 1
-        return str(r)
+        return r
 
     def feasible(self):
         r = self.check_sat()
@@ -381,11 +430,23 @@ class Explorer(object):
         self.pos += 1
         return alts[0]
 
-    def decide_bool(self, term, fresh):
+    def decide_bool(self, term, fresh, expect=None):
         v = self._scripted()
         if v is None:
             if fresh:
                 alts = [True, False]
+            elif expect is True:
+                # assertion: ask for a counterexample first; none => the path condition (sat) implies term
+                r2 = self.check_sat(z3.Not(term))
+                if r2 == 'unknown':
+                    raise Inconclusive('solver unknown on assertion')
+                if r2 == 'unsat':
+                    alts = [True]
+                else:
+                    r1 = self.check_sat(term)
+                    if r1 == 'unknown':
+                        raise Inconclusive('solver unknown on assertion')
+                    alts = [True, False] if r1 == 'sat' else [False]
             else:
                 alts = []
                 r1 = self.check_sat(term)
@@ -439,6 +500,17 @@ class Explorer(object):
 
     # ---- one path
     def _assignment(self, ctx):
+        if self.backend == 'cvc5':
+            r = self.check_sat(value_names=list(ctx.vars))
+            if r != 'sat':
+                raise Inconclusive('no model at end of path (%s)' % r)
+            out = {}
+            for name, v in ctx.vars.items():
+                val = self.cvc5_values.get(name)
+                if val is None:
+                    val = False if z3.is_bool(v) else (0.0).hex() if z3.is_fp(v) else 0
+                out[name] = val
+            return out
         r = self.check_sat()
         if r != 'sat':
             raise Inconclusive('no model at end of path (%s)' % r)
@@ -450,6 +522,10 @@ class Explorer(object):
                 out[name] = z3.is_true(val)
             elif z3.is_int_value(val):
                 out[name] = val.as_long()
+            elif z3.is_fp(val):
+                out[name] = fp_value_to_hex(val)
+            elif z3.is_bv_value(val):
+                out[name] = val.as_signed_long()
             elif z3.is_rational_value(val):
                 out[name] = [val.numerator_as_long(), val.denominator_as_long()]
             else:
